@@ -93,7 +93,20 @@ def load_mol(d):
 
 def _subst(rng, m, root_of):
     """attach a small substituent to atom `root_of`; returns its first atom"""
-    kind = rng.choice(['hal', 'hal', 'hal', 'me', 'chx', 'och', 'cc', 'chir', 'keto', 'n'])
+    kind = rng.choice(['hal', 'hal', 'hal', 'me', 'chx', 'och', 'cc', 'chir', 'keto', 'n', 'ring', 'ring'])
+    if kind == 'ring':
+        # saturated 5- or 6-ring, made asymmetric by a decoration next to the attachment atom
+        n = rng.choice([5, 6])
+        ring = [m.add('C') for _ in range(n)]
+        for i in range(n):
+            m.bond(ring[i], ring[(i + 1) % n])
+        m.bond(root_of, ring[0])
+        m.bond(ring[1], m.add(rng.choice(HAL + ['O', 'N'])))
+        if rng.random() < 0.5:
+            m.chiral[ring[1]] = rng.choice('RS')
+        if rng.random() < 0.3:
+            m.chiral[ring[0]] = rng.choice('RS')
+        return ring[0]
     if kind == 'hal':
         a = m.add(rng.choice(HAL))
         m.bond(root_of, a)
@@ -239,18 +252,18 @@ def rand_stereo_mol(rng, ndb=None):
         n_auto += 1
         if n_auto > 1:
             return None
-    if len(m.el) > 22:
+    if len(m.el) > 26:
         return None
     return m
 
 
 # ------------------------------------------------------------------------------ rendering
-def mark_token(m, parent, child):
-    """token written on the bond parent->child (parent is written first), or None"""
-    if (child, parent) in m.side:          # child is a ligand of the anchor `parent`
-        return '/' if m.side[(child, parent)] == 'u' else '\\'
-    if (parent, child) in m.side:          # parent is a ligand of the anchor `child`
-        return '\\' if m.side[(parent, child)] == 'u' else '/'
+def first_token(m, first, second):
+    """token written on the bond first..second when `first` is written before `second`, or None"""
+    if (second, first) in m.side:          # second is a ligand of the anchor `first`
+        return '/' if m.side[(second, first)] == 'u' else '\\'
+    if (first, second) in m.side:          # first is a ligand of the anchor `second`
+        return '\\' if m.side[(first, second)] == 'u' else '/'
     return None
 
 
@@ -263,13 +276,58 @@ def atom_text(m, a, rng, plain):
     return e
 
 
-def render_part(m, part, rng, desc, plain=False, start=None):
-    """(text, written order, marks in text order [(parent, child, token)])"""
+def render_part(m, part, rng, desc, plain=False, start=None, lead_cut=None, trail_cut=None):
+    """SMILES of the sub-molecule `part` (rings allowed) with bonding descriptors.
+    desc: {atom: [(name, order)]} ordinary descriptors.
+    lead_cut: (atom, name, token) - a CUT MARKED bond whose other end is written first: `[name]/atom…`
+              (the atom must be the start atom); trail_cut: {atom: [(name, token)]} - the other end is written
+              later: `atom(…)/[name]` after all (parenthesised) branches of the atom.
+    Returns (text, written order, events) where events, in text order, are what the slash marks do to the
+    per-atom token store: ('mark', prev_atom, index_of_next_atom, token)."""
     pset = set(part)
+    trail_cut = trail_cut or {}
+    if lead_cut is not None:
+        start = lead_cut[0]
     start = rng.choice(sorted(part)) if start is None else start
     style = rng.choice(['early', 'early', 'late', 'lead'])
-    order = []
-    marks = []
+    ring_style = rng.choice(['digit', 'pct', 'pct'])
+    # pass 1: DFS tree, written order, ring bonds
+    order, children, rings = [], {}, []
+    seen = set()
+
+    def dfs(a, parent):
+        seen.add(a)
+        order.append(a)
+        children[a] = []
+        nb = [x for x in m.adj[a] if x in pset and x != parent]
+        rng.shuffle(nb)
+        for x in nb:
+            if x in seen:
+                if (x, a) not in rings and (a, x) not in rings:
+                    rings.append((x, a))       # opened at x (earlier), closed at a
+                continue
+            children[a].append(x)
+            dfs(x, a)
+    dfs(start, None)
+    pos = {a: i for i, a in enumerate(order)}
+    free = list(range(1, 10)) if ring_style == 'digit' else list(range(10, 40))
+    if ring_style == 'pct':
+        rng.shuffle(free)
+    label = {}
+    digits = {a: '' for a in order}
+    for a in order:
+        for rb in rings:
+            if rb[1] == a:
+                mk = label.pop(rb)
+                digits[a] += (str(mk) if mk < 10 else '%%%d' % mk)
+                free.append(mk)
+        for rb in rings:
+            if rb[0] == a:
+                mk = free.pop(0)
+                label[rb] = mk
+                digits[a] += (str(mk) if mk < 10 else '%%%d' % mk)
+    events = []
+    count = [0]
 
     def dtext(a, leading=False):
         out = ''
@@ -278,56 +336,67 @@ def render_part(m, part, rng, desc, plain=False, start=None):
             out += ('[%s]%s' % (name, sym)) if leading else ('%s[%s]' % (sym, name))
         return out
 
-    def emit(a, parent, first=False):
-        order.append(a)
+    def emit(a, first=False):
         t = ''
         d = dtext(a)
-        ch = [b for b in m.adj[a] if b in pset and b != parent]
-        rng.shuffle(ch)
+        ch = children[a]
         late = False
-        if d and first and style == 'lead':
+        if first and lead_cut is not None:
+            # [$x]/A : the mark is read before any atom: prev_node = node_count = 0
+            t += '[%s]%s' % (lead_cut[1], lead_cut[2])
+            events.append(('mark', a, 0, lead_cut[2]))
+            if d and style == 'lead':
+                t = dtext(a, leading=True) + t
+                d = ''
+        elif d and first and style == 'lead':
             t += dtext(a, leading=True)
             d = ''
         elif d and style == 'late' and ch:
             late = True
-        t += atom_text(m, a, rng, plain)
+        t += atom_text(m, a, rng, plain) + digits[a]
+        count[0] += 1
         if not late:
             t += d
-        paren_all = late or (ch and rng.random() < 0.15)
+        paren_all = late or bool(trail_cut.get(a)) or (ch and rng.random() < 0.15)
         for k, c in enumerate(ch):
-            tok = mark_token(m, a, c)
+            tok = first_token(m, a, c)
             if tok is not None:
                 sym = tok
+                events.append(('mark', a, count[0], tok))      # the child is the next atom read
             else:
                 sym = '=' if m.bo(a, c) == 2 else ''
-            # the mark is read when the child atom is read: text order of marks = order of children
-            if tok is not None:
-                marks.append((a, c, tok))
-            body = sym + emit(c, a)
+            body = sym + emit(c)
             if k < len(ch) - 1 or paren_all:
                 t += '(' + body + ')'
             else:
                 t += body
         if late:
             t += d
+        for name, tok in trail_cut.get(a, []):
+            # A(...)/[$x] : prev_node = A, node_count = the NEXT atom of the text (if any)
+            t += '%s[%s]' % (tok, name)
+            events.append(('mark', a, count[0], tok))
         return t
-    text = emit(start, None, True)
-    return text, order, marks
+    text = emit(start, True)
+    return text, order, events
 
 
-def stored_tokens(marks):
-    """what strip_bonding_descriptors / pysmiles' parser keep: one token per ATOM, last mark wins"""
+def stored_tokens(order, events):
+    """what strip_bonding_descriptors / pysmiles' parser keep: one token per ATOM (`ez[node_count] = token;
+    ez[prev_node] = token`), the last mark wins; a node_count beyond the fragment is dropped"""
     tok = {}
-    for parent, child, t in marks:
-        tok[child] = t
-        tok[parent] = t
+    for _, prev, nxt, t in events:
+        if nxt < len(order):
+            tok[order[nxt]] = t
+        tok[prev] = t
     return tok
 
 
-def unambiguous(m, pos, tok):
-    """pos: atom -> (fragment index, index in the fragment text); tok: stored token per atom.
-    True iff, for every stereo double bond, the tagged neighbours of each anchor are exactly its marked
-    ligands and each carries the token of ITS bond to that anchor (the per-atom storage loses nothing)."""
+def unambiguous(m, wb, tok):
+    """wb: (ligand, anchor) -> ligand written before anchor (for every marked pair); tok: stored token per
+    atom.  True iff, for every stereo double bond, both anchors are tagged, the tagged neighbours of each
+    anchor are exactly its marked ligands and each carries the token of ITS bond to that anchor (the
+    per-atom storage loses nothing)."""
     for a1, a2 in m.stereo:
         if a1 not in tok or a2 not in tok:
             return False
@@ -338,13 +407,17 @@ def unambiguous(m, pos, tok):
                 if (n, A) in m.side:
                     if n not in tok:
                         return False
-                    before = pos[n] < pos[A]
                     up = m.side[(n, A)] == 'u'
-                    want = ('\\' if up else '/') if before else ('/' if up else '\\')
+                    want = ('\\' if up else '/') if wb[(n, A)] else ('/' if up else '\\')
                     if tok[n] != want:
                         return False
                 elif n in tok:
                     return False
+    # no atom is tagged that is not an end of a marked bond (a mark written before a descriptor tags the
+    # NEXT atom of the text, whatever it is)
+    intended = {x for k in m.side for x in k}
+    if not set(tok) <= intended:
+        return False
     # an order-2 bond with exactly one tagged end is a "dangling token" for pysmiles
     for fs, o in m.order.items():
         a, b = tuple(fs)
@@ -397,23 +470,47 @@ def components(m, cut):
 
 
 def make_variant(m, rng, cut, perm=None, kind='', check=True):
-    """cut: list of bonds (a, b) to cut.  Returns the case dict or None (ambiguous rendering)."""
+    """cut: list of bonds (a, b) to cut; a MARKED bond ligand-anchor may be cut too: its mark is then written
+    at both ends (`F/[$a]` … `[$a]/C(Cl)=…`), the only way to keep the mark next to an atom in each of the
+    two fragments.  Returns the case dict or None (ambiguous rendering / not expressible)."""
     parts = components(m, cut)
     rng.shuffle(parts)
     owner = {a: i for i, p in enumerate(parts) for a in p}
-    desc = {}
+    desc, lead, trail = {}, {}, {}
+    wb = {}
+    cutoff = set()
     for (a, b), lab in zip(cut, rng.sample(LABS, len(cut))):
         o = m.bo(a, b)
-        desc.setdefault(a, []).append(('$' + lab, o))
-        desc.setdefault(b, []).append(('$' + lab, o))
+        if m.marked(a, b):
+            first, second = (a, b) if rng.random() < 0.5 else (b, a)
+            # a single-atom fragment can take either role; otherwise `second` must start its fragment
+            tok = first_token(m, first, second)
+            if owner[second] in lead:
+                first, second = second, first
+                tok = first_token(m, first, second)
+                if owner[second] in lead:
+                    return None
+            lead[owner[second]] = (second, '$' + lab, tok)
+            trail.setdefault(first, []).append(('$' + lab, tok))
+            for l, an in ((a, b), (b, a)):
+                if (l, an) in m.side:
+                    wb[(l, an)] = (l == first)
+                    cutoff.add((l, an))
+        else:
+            desc.setdefault(a, []).append(('$' + lab, o))
+            desc.setdefault(b, []).append(('$' + lab, o))
     texts, orders, toks = [], [], {}
-    for p in parts:
-        t, ol, marks = render_part(m, p, rng, desc)
+    for i, p in enumerate(parts):
+        t, ol, events = render_part(m, p, rng, desc, lead_cut=lead.get(i),
+                                    trail_cut={x: v for x, v in trail.items() if x in p})
         texts.append(t)
         orders.append(ol)
-        toks.update(stored_tokens(marks))
+        toks.update(stored_tokens(ol, events))
     pos = {a: (owner[a], orders[owner[a]].index(a)) for a in owner}
-    amb = not unambiguous(m, pos, toks)
+    for (l, an) in m.side:
+        if (l, an) not in wb:
+            wb[(l, an)] = pos[l] < pos[an]
+    amb = not unambiguous(m, wb, toks)
     if amb and check:
         return None
     edges = {frozenset((owner[a], owner[b])) for a, b in cut}
@@ -423,14 +520,16 @@ def make_variant(m, rng, cut, perm=None, kind='', check=True):
     defs = ['#%s=%s' % (names[i], texts[i]) for i in range(len(parts))]
     rng.shuffle(defs)
     return {'s': base + '.{' + ','.join(defs) + '}', 'mol': m.dump(), 'kind': kind, 'nparts': len(parts),
-            'texts': texts, 'perm': perm, 'ambiguous': amb}
+            'texts': texts, 'perm': perm, 'ambiguous': amb,
+            'wb': sorted([[l, an, bool(v), (l, an) in cutoff] for (l, an), v in wb.items()])}
 
 
 def variants_of(m, rng, budget):
     """list of cases for one molecule"""
     out = []
     bonds = [tuple(sorted(fs)) for fs in m.order]
-    cuttable = [b for b in bonds if not m.marked(*b)]
+    bridges = {tuple(sorted(e)) for e in nx.bridges(m.graph())}
+    cuttable = [b for b in bonds if not m.marked(*b) and b in bridges]
     stereo = [tuple(sorted(sb)) for sb in m.stereo]
 
     def add(cut, kind, all_perms, tries=3):
@@ -464,12 +563,21 @@ def variants_of(m, rng, budget):
     rng.shuffle(others)
     for b in others[:5]:
         add([b], 'cut-elsewhere', True)
+    # a marked substituent cut off at its bond to the anchor (the mark written at both ends);
+    # one-heavy-atom substituents (F, Br, CH3, OH ...) first
+    anchors = {a for sb in m.stereo for a in sb}
+    mb = sorted({tuple(sorted(k)) for k in m.side if not (k[0] in anchors and k[1] in anchors)})
+    mb.sort(key=lambda b: (min(len(c) for c in components(m, [b])), rng.random()))
+    for b in mb[:4]:
+        add([b], 'cut-marked-substituent', True, tries=4)
     # several cuts (<= 4 fragments: every order)
+    pool = cuttable + mb
     for _ in range(3):
-        if len(cuttable) >= 2:
-            k = rng.randint(2, min(3, len(cuttable)))
-            cut = rng.sample(cuttable, k)
-            kind = 'multi-cut' + ('+double-bond' if any(c in stereo for c in cut) else '')
+        if len(pool) >= 2:
+            k = rng.randint(2, min(3, len(pool)))
+            cut = rng.sample(pool, k)
+            kind = ('multi-cut' + ('+double-bond' if any(c in stereo for c in cut) else '')
+                    + ('+marked' if any(c in mb for c in cut) else ''))
             add(cut, kind, rng.random() < 0.5)
     rng.shuffle(out)
     return out[:budget]
@@ -499,9 +607,9 @@ def pysmiles_reads(m, rng):
     import logging
     logging.getLogger('pysmiles').setLevel(logging.CRITICAL)
     for _ in range(3):
-        text, order, marks = render_part(m, list(range(len(m.el))), rng, {}, plain=True)
-        pos = {a: (0, i) for i, a in enumerate(order)}
-        if not unambiguous(m, pos, stored_tokens(marks)):
+        text, order, events = render_part(m, list(range(len(m.el))), rng, {}, plain=True)
+        wb = {(l, an): order.index(l) < order.index(an) for (l, an) in m.side}
+        if not unambiguous(m, wb, stored_tokens(order, events)):
             continue
         try:
             g = pysmiles.read_smiles(text, explicit_hydrogen=False)
@@ -543,13 +651,22 @@ def graph_json(g):
             'adj': [[n, [[w, ed.get('order')] for w, ed in g._adj[n].items()]] for n in g._node]}
 
 
-def in_class_py(before):
-    """mirror of EzDefs.in_class on the recorded molecule: some stereo pair whose SECOND-enumerated
-    anchor has a tagged ligand with a smaller key than that anchor"""
+def in_class_py(before, wb=None, ident=None):
+    """mirror of EzCheck.case_class_code on the recorded molecule.  For every pair (x, y) the annotation
+    forms: kb = ligand key < anchor key, wb = ligand WRITTEN before its anchor (from the variant; equal to kb
+    when both lie in one fragment).  pysmiles' table is right iff  not ((kb_x != wb_x) xor wb_y).
+    Returns 0 (no pair breaks the table's assumptions), 14 (some pair does, all its ligands in their anchors'
+    fragments: then simply  ligand_y < anchor_y) or 15 (a cut-off ligand is involved)."""
     nodes = dict((n, d) for n, d in before['nodes'])
     adj = dict((n, a) for n, a in before['adj'])
     ez = {n for n, d in nodes.items() if 'ez_isomer_class' in d}
+    idm = dict((a, b) for a, b in (ident or []))
+    wbm = {(l, an): (w, c) for l, an, w, c in (wb or [])}
+
+    def look(l, a):
+        return wbm.get((idm.get(l), idm.get(a)), (l < a, False))
     seen = set()
+    code = 0
     for n in nodes:
         for w, o in adj[n]:
             if w in seen:
@@ -558,8 +675,37 @@ def in_class_py(before):
                 a1, a2 = n, w
                 first = [x for x, _ in adj[a1] if x not in (a1, a2) and x in ez]
                 second = [x for x, _ in adj[a2] if x not in (a1, a2) and x in ez]
-                if first and any(x < a2 for x in second):
-                    return True
+                for x in first:
+                    for y in second:
+                        wx, cx = look(x, a1)
+                        wy, cy = look(y, a2)
+                        if ((x < a1) != wx) != wy:
+                            code = max(code, 15 if (cx or cy) else 14)
+        seen.add(n)
+    return code
+
+
+def conflict_class_py(before, wb=None, ident=None):
+    """mirror of EzCheck.conflict_class (without the model's own verdict): some anchor of an order-2 edge has
+    exactly two tagged ligands of which exactly one has its key on the other side of the anchor than where
+    it was written"""
+    nodes = dict((n, d) for n, d in before['nodes'])
+    adj = dict((n, a) for n, a in before['adj'])
+    ez = {n for n, d in nodes.items() if 'ez_isomer_class' in d}
+    idm = dict((a, b) for a, b in (ident or []))
+    wbm = {(l, an): w for l, an, w, c in (wb or [])}
+    seen = set()
+    for n in nodes:
+        for w, o in adj[n]:
+            if w in seen:
+                continue
+            if o == 2 or o == 2.0:
+                for a, other in ((n, w), (w, n)):
+                    tg = [x for x, _ in adj[a] if x not in (a, other) and x in ez]
+                    if len(tg) == 2:
+                        fl = [((x < a) != wbm.get((idm.get(x), idm.get(a)), x < a)) for x in tg]
+                        if fl[0] != fl[1]:
+                            return True
         seen.add(n)
     return False
 
@@ -619,6 +765,24 @@ def raw_graph_case(rng):
             's': 'raw graph', 'mol': {'atoms': [], 'bonds': [], 'stereo': [], 'side': [], 'chiral': [], 'rel': []}}
 
 
+def identify(g, mol):
+    """returned key -> atom id of the written molecule (element / bond order preserving isomorphism of the
+    heavy-atom graphs; unique by construction of the generator); None when there is none"""
+    want = nx.Graph()
+    for k, e in enumerate(mol['atoms']):
+        want.add_node(k, element=e)
+    for a, b, o in mol['bonds']:
+        want.add_edge(a, b, order=o)
+    heavy = g.subgraph([n for n, d in g.nodes(data=True) if d.get('element') != 'H'])
+    if len(heavy) != len(want):
+        return None
+    gm = nx.isomorphism.GraphMatcher(heavy, want, node_match=lambda x, y: x.get('element') == y['element'],
+                                     edge_match=lambda x, y: x.get('order') == y['order'])
+    for iso in gm.isomorphisms_iter():
+        return sorted(iso.items())
+    return None
+
+
 class C15(common.Prop):
     id = 'C15'
     level = 'proof'
@@ -641,6 +805,12 @@ class C15(common.Prop):
                  5: 'a cis/trans relation is missing or an unexpected one is stored',
                  14: 'the cis/trans class of a substituent pair differs from the other variants (inside the class '
                      'second_anchor_ligand_lower: a ligand of the second-enumerated anchor has the smaller key)',
+                 15: 'the cis/trans class of a substituent pair differs from the other variants (inside the class '
+                     'cut_off_ligand_key_order: a marked substituent cut off from its anchor got a key on the other '
+                     'side of the anchor than where it was written)',
+                 16: 'the resolver raised "Conflicting cis/trans assignment" on consistently marked input (inside the '
+                     'class cut_off_ligand_conflict_error: one of two marked ligands of an anchor is cut off and got a '
+                     'key on the other side of the anchor than where it was written)',
                  9: 'the resolver raised an exception on a valid stereo input'}
 
     def corpus(self, ctx):
@@ -666,11 +836,12 @@ class C15(common.Prop):
             out += vs
             # correspondence-only cases (never judged): ambiguous renderings, damaged marks, raw graphs
             extra = []
-            bonds = [tuple(sorted(fs)) for fs in m.order if not m.marked(*tuple(fs))]
+            bridges = {tuple(sorted(e)) for e in nx.bridges(m.graph())}
+            bonds = [b for b in (tuple(sorted(fs)) for fs in m.order) if not m.marked(*b) and b in bridges]
             for _ in range(max(1, len(vs) // 8)):
                 cut = rng.sample(bonds, min(len(bonds), rng.randint(0, 2)))
                 v = make_variant(m, rng, cut, kind='unjudged:any-rendering', check=False)
-                if v['ambiguous']:
+                if v is not None and v['ambiguous']:
                     v['judged'] = False
                     extra.append(v)
             for v in rng.sample(vs, min(len(vs), max(1, len(vs) // 10))):
@@ -684,7 +855,7 @@ class C15(common.Prop):
 
     def describe(self, case):
         d = {'s': case['s'], 'mol': case['mol'], 'kind': case.get('kind', '')}
-        for k in ('raw', 'judged'):
+        for k in ('raw', 'judged', 'wb'):
             if k in case:
                 d[k] = case[k]
         return d
@@ -715,6 +886,7 @@ class C15(common.Prop):
         def wrapped(molecule):
             rec['before_lit'] = graph_lit(molecule)
             rec['before'] = graph_json(molecule)
+            rec['ident_before'] = identify(molecule, case['mol'])
             try:
                 orig(molecule)
             except Exception as exc:
@@ -733,20 +905,7 @@ class C15(common.Prop):
         rec['ret_lit'] = graph_lit(g)
         rec['ret'] = graph_json(g)
         # recognise the atoms of the returned molecule by their neighbourhood
-        mol = case['mol']
-        want = nx.Graph()
-        for k, e in enumerate(mol['atoms']):
-            want.add_node(k, element=e)
-        for a, b, o in mol['bonds']:
-            want.add_edge(a, b, order=o)
-        heavy = g.subgraph([n for n, d in g.nodes(data=True) if d.get('element') != 'H'])
-        gm = nx.isomorphism.GraphMatcher(heavy, want, node_match=lambda x, y: x.get('element') == y['element'],
-                                         edge_match=lambda x, y: x.get('order') == y['order'])
-        ident = None
-        for iso in gm.isomorphisms_iter():
-            ident = iso
-            break
-        rec['ident'] = sorted(ident.items()) if ident is not None else None
+        rec['ident'] = identify(g, case['mol'])
         return rec
 
     def nontrivial(self, case, impl):
@@ -760,15 +919,24 @@ class C15(common.Prop):
             return 'unjudged:raw-graph ' + ('ok' if 'after_lit' in impl else str(impl.get('exc')))
         if 'raised' in impl:
             tag += ' RAISED'
-        elif 'before' in impl and in_class_py(impl['before']):
-            tag += ' in-class'
+        elif 'before' in impl and in_class_py(impl['before'], case.get('wb'), impl.get('ident')):
+            tag += ' in-class%d' % in_class_py(impl['before'], case.get('wb'), impl.get('ident'))
         return tag
 
     def known_class(self, case, impl, code):
-        # the Coq predicate EzDefs.in_class decides (code 14); the Python mirror must agree
-        if code == 14 and case.get('judged', True) and 'before' in impl and in_class_py(impl['before']):
-            return 'second_anchor_ligand_lower'
+        # the Coq predicates (EzCheck.case_class_code / conflict_class) decide: codes 14, 15, 16; the Python
+        # mirrors must agree
+        if not case.get('judged', True) or 'before' not in impl:
+            return None
+        if code in (14, 15) and in_class_py(impl['before'], case.get('wb'), impl.get('ident')) == code:
+            return {14: 'second_anchor_ligand_lower', 15: 'cut_off_ligand_key_order'}[code]
+        if code == 16 and str(impl.get('raised', '')).startswith('ValueError: Conflicting') \
+                and conflict_class_py(impl['before'], case.get('wb'), self._ident_before(case, impl)):
+            return 'cut_off_ligand_conflict_error'
         return None
+
+    def _ident_before(self, case, impl):
+        return impl.get('ident_before')
 
     def coq_case(self, case, impl):
         mol = case['mol']
@@ -780,9 +948,10 @@ class C15(common.Prop):
         before = impl.get('before_lit')
         after = impl.get('after_lit')
         ret = impl.get('ret_lit')
-        ident = impl.get('ident')
+        ident = impl.get('ident') or impl.get('ident_before')
+        wbl = lit.lst(['(%s, %s, %s, %s)' % (lit.z(l), lit.z(an), lit.b(w), lit.b(c)) for l, an, w, c in case.get('wb', [])])
         return ('{| c_judged := %s; c_before := %s; c_after := %s; c_ret := %s; c_atoms := %s; c_bonds := %s; '
-                'c_ident := %s; c_chiral := %s; c_rel := %s |}'
+                'c_ident := %s; c_chiral := %s; c_rel := %s; c_wb := ' + wbl + ' |}'
                 % (lit.b(case.get('judged', True)), '(Some %s)' % before if before else 'None',
                    '(Some %s)' % after if after else 'None',
                    '(Some %s)' % ret if ret else 'None',
@@ -799,6 +968,9 @@ def py_oracle(case, impl):
     if not case.get('judged', True):
         return 0
     if 'ret' not in impl:
+        if 'before' in impl and str(impl.get('raised', '')).startswith('ValueError: Conflicting') \
+                and conflict_class_py(impl['before'], case.get('wb'), impl.get('ident_before')):
+            return 16
         return 9
     if impl.get('ident') is None:
         return 1
@@ -826,7 +998,7 @@ def py_oracle(case, impl):
             got[key] = (c == 'cis')
     for k, c in got.items():
         if k in want and want[k] != c:
-            return 14 if ('before' in impl and in_class_py(impl['before'])) else 4
+            return ('before' in impl and in_class_py(impl['before'], case.get('wb'), impl.get('ident'))) or 4
     if set(got) != set(want):
         return 5
     return 0
@@ -851,6 +1023,11 @@ _W18 = _wmol(['F', 'C', 'Cl', 'C', 'Br', 'I'], [(0, 1, 1), (1, 2, 1), (1, 3, 2),
 _WH = _wmol(['F', 'C', 'C', 'I'], [(0, 1, 1), (1, 2, 2), (2, 3, 1)], [(1, 2)], [(0, 1, 'd'), (3, 2, 'u')])
 _WC = _wmol(['F', 'C', 'Cl', 'C', 'Br', 'I'], [(0, 1, 1), (1, 2, 1), (1, 3, 1), (3, 4, 1), (3, 5, 1)], [], [],
             [(1, 'R'), (3, 'S')])
+# F/C(/Cl)=C(/Br)I : F below, Cl above; Br above
+_W2L = _wmol(['F', 'C', 'Cl', 'C', 'Br', 'I'], [(0, 1, 1), (1, 2, 1), (1, 3, 2), (3, 4, 1), (3, 5, 1)],
+             [(1, 3)], [(0, 1, 'd'), (2, 1, 'u'), (4, 3, 'u')])
+_W1L = _wmol(['F', 'C', 'Cl', 'C', 'Br', 'I'], [(0, 1, 1), (1, 2, 1), (1, 3, 2), (3, 4, 1), (3, 5, 1)],
+             [(1, 3)], [(0, 1, 'd'), (4, 3, 'u')])
 WITNESSES = [
     {'s': '{[#B][#A]}.{#A=F/C(Cl)=[$],#B=[$]=C(Br)/I}', 'mol': _W18, 'kind': 'known-finding witness', 'nparts': 2},
     {'s': '{[#A][#B]}.{#A=F/C(Cl)=[$],#B=[$]=C(Br)/I}', 'mol': _W18, 'kind': 'witness other order', 'nparts': 2},
@@ -858,6 +1035,24 @@ WITNESSES = [
     {'s': '{[#A][#B]}.{#A=F/C=[$],#B=[$]=C/I}', 'mol': _WH, 'kind': 'witness with hydrogens', 'nparts': 2},
     {'s': '{[#B][#A]}.{#A=F/C=[$],#B=[$]=C/I}', 'mol': _WH, 'kind': 'known-finding witness with hydrogens', 'nparts': 2},
     {'s': '{[#B][#A]}.{#A=F[C;x=R](Cl)[$],#B=[$][CH;x=S](Br)I}', 'mol': _WC, 'kind': 'witness chiral', 'nparts': 2},
+    # a marked substituent cut off at its bond to the anchor, the mark written at both ends of the cut
+    {'s': '{[#A][#B]}.{#A=F/[$],#B=[$]/C(Cl)=C(/Br)I}', 'mol': _W1L, 'kind': 'witness F cut off', 'nparts': 2,
+     'wb': [[0, 1, True, True], [4, 3, False, False]]},
+    {'s': '{[#B][#A]}.{#A=F/[$],#B=[$]/C(Cl)=C(/Br)I}', 'mol': _W1L, 'kind': 'known-finding witness F cut off, listed second',
+     'nparts': 2, 'wb': [[0, 1, True, True], [4, 3, False, False]]},
+    {'s': '{[#A][#B]}.{#A=F/[$],#B=[$]/C(/Cl)=C(/Br)I}', 'mol': _W2L, 'kind': 'witness F cut off, two ligands', 'nparts': 2,
+     'wb': [[0, 1, True, True], [2, 1, False, False], [4, 3, False, False]]},
+    {'s': '{[#B][#A]}.{#A=F/[$],#B=[$]/C(/Cl)=C(/Br)I}', 'mol': _W2L,
+     'kind': 'known-finding witness F cut off, two ligands, listed second', 'nparts': 2,
+     'wb': [[0, 1, True, True], [2, 1, False, False], [4, 3, False, False]]},
+    # two-digit ring labels before labelled stereocentres (seeded/C15-1)
+    {'s': '{[#A][#B]}.{#A=OC%10CCCC%10[$],#B=[$][C;x=R](F)[C;x=S](Cl)Br}', 'mol': None, 'kind': 'witness ring label', 'nparts': 2},
 ]
+_WR = _wmol(['O', 'C', 'C', 'C', 'C', 'C', 'C', 'F', 'C', 'Cl', 'Br'],
+            [(0, 1, 1), (1, 2, 1), (2, 3, 1), (3, 4, 1), (4, 5, 1), (5, 1, 1), (5, 6, 1), (6, 7, 1), (6, 8, 1), (8, 9, 1),
+             (8, 10, 1)], [], [], [(6, 'R'), (8, 'S')])
+WITNESSES[-1]['mol'] = _WR
+WITNESSES.append({'s': '{[#A]}.{#A=OC%10CCCC%10[C;x=R](F)[C;x=S](Cl)Br}', 'mol': _WR, 'kind': 'witness ring label single',
+                  'nparts': 1})
 
 PROP = C15()
